@@ -8,7 +8,7 @@ def main(tier):
     ck = cpu_check('C04', tier)
     ck.stubs_used.append('memory.Mapper -> flat 64 KiB array with access log; FF0F/FFFF routed to the real interrupt controller (stubs/flatmapper)')
     k = 3 if tier == 'quick' else 4
-    jobs = [('cpu', 'VerifIntrDispatch', {})]
+    jobs = [('cpu', 'VerifIntrDispatch', {}), ('cpu', 'VerifIntrDispatchArrivals', {}), ('cpu', 'VerifHaltWake', {})]
     for seq in itertools.product(range(8), repeat=k):
         cfg = {'k': k, 'i0': 3, 'i1': 3, 'i2': 3, 'i3': 3}
         for i, c in enumerate(seq):
@@ -17,7 +17,9 @@ def main(tier):
     ck.bounds = {'dispatch': 'all IE x IF with IME set and something pending, every register/SP/PC/memory value (one query group)',
                  'no-dispatch': 'covered for every opcode by the C01 harness (IME clear or nothing pending, IF/IE untouched)',
                  'sequences': 'every program of %d instructions over {EI, DI, RETI, NOP, INC B, LD A,n, LDH (0F),A, LDH (FF),A} (shorter programs are prefixes); before every machine cycle an arbitrary byte is OR-ed into IF' % k,
-                 'outside': 'which request wins when a higher-priority one arrives during the 5 dispatch cycles; interrupt ROMs'}
+                 'arrivals during dispatch': 'arbitrary requests OR-ed into IF before each of the 5 dispatch cycles: exactly one enabled, requested bit is acknowledged and the vector taken is that bit\'s (which moment priority is evaluated at is not prescribed)',
+                 'halted': 'leaving HALT with the master enable clear does not dispatch (VerifHaltWake, shared with C05)',
+                 'outside': 'interrupt ROMs'}
     ck.assumptions = ['sequence harness: SP in D002-DFF0 (stack does not overlap the program at C000), RETI returns to the next instruction of the program']
     ck.run(jobs)
     # single-instruction lemma for the master enable and the EI latch: EI, DI, RETI and the filler instructions of the alphabet,
